@@ -1,7 +1,7 @@
 (* C12 - Refinement decisions are consistent, exact and terminate.
    Statements only; every proof is [exact <lemma>]. *)
 From FrameModel Require Import Num.QcTac Geometry.Rect Alloc.Alloc Alloc.GeomExtra Alloc.RefinesFacts
-  Alloc.AcceptFacts Alloc.OpsFacts Alloc.DecisionFacts Alloc.GriddifyFacts.
+  Alloc.AcceptFacts Alloc.OpsFacts Alloc.DecisionFacts Alloc.GriddifyFacts Alloc.Hist Alloc.HistFacts.
 Open Scope list_scope.
 Open Scope Qc_scope.
 
@@ -84,3 +84,62 @@ Theorem C12_refused_is_sliver_y : forall r y q, ymin r < y -> y < ymax r -> y_cu
   y - ymin r <= q * rw r \/ ymax r - y <= q * rw r.
 Proof. exact refused_is_sliver_y. Qed.
 Print Assumptions C12_refused_is_sliver_y.
+
+(* ---- the same decisions at every state of a history on shared objects (Alloc/Hist.v, see C02.v) ----
+   [s] below is any valid state (all allocations built so far accepted); by C12_reach_valid that is every state
+   reached from an accepted allocation by refinement calls, copies, queries and rect.fixed = b set in place
+   (whichever allocations share the flagged Rectangle object). *)
+Theorem C12_reach_valid : forall eps aeps q cells ops, 0 <= aeps -> accepted aeps cells -> Forall hop_admissible ops ->
+  hvalid aeps (fst (run_hist eps aeps q ops (hinit cells))).
+Proof. exact reach_valid. Qed.
+Print Assumptions C12_reach_valid.
+
+(* after any history, must_be_refined(t) on any allocation answers True exactly when refine(t, levels) on that
+   allocation, called at that moment, returns something else than its current cells *)
+Theorem C12_reach_mbr_iff_changes : forall eps aeps q cells ops k t levels,
+  0 <= aeps -> accepted aeps cells -> Forall hop_admissible ops -> (0 < levels)%nat ->
+  let s := fst (run_hist eps aeps q ops (hinit cells)) in
+  exists new, snd (hstep eps aeps q (HApply k (OpRefine t levels)) s) = ONew (Some new) /\
+    (snd (hstep eps aeps q (HMbr k t) s) = OBool true <-> new <> hget s k).
+Proof. exact reach_mbr_iff_changes. Qed.
+Print Assumptions C12_reach_mbr_iff_changes.
+
+Theorem C12_hist_mbr_iff_changes : forall eps aeps q s k t levels, 0 <= aeps -> hvalid aeps s -> (0 < levels)%nat ->
+  exists new, snd (hstep eps aeps q (HApply k (OpRefine t levels)) s) = ONew (Some new) /\
+    (snd (hstep eps aeps q (HMbr k t) s) = OBool true <-> new <> hget s k).
+Proof. exact hist_mbr_iff_changes. Qed.
+Print Assumptions C12_hist_mbr_iff_changes.
+
+(* the cells refine(t, levels) cuts are decided by the flags and maps of that moment *)
+Theorem C12_hist_refine_exact : forall eps aeps q s k t levels, 0 <= aeps -> hvalid aeps s -> (0 < levels)%nat ->
+  exists new parts, snd (hstep eps aeps q (HApply k (OpRefine t levels)) s) = ONew (Some new) /\
+    new = List.concat parts /\ Forall2 (refine_cell_spec t levels) (hget s k) parts.
+Proof. exact hist_refine_exact. Qed.
+Print Assumptions C12_hist_refine_exact.
+
+(* what rect.fixed = b changes about the decision: a flagged cell is never selected; an unflagged one is selected
+   iff it is occupied and no ratio exceeds t *)
+Theorem C12_splittable_set_fixed_true : forall t c, splittable t (cset_fixed true c) = false.
+Proof. exact splittable_set_fixed_true. Qed.
+Print Assumptions C12_splittable_set_fixed_true.
+Theorem C12_splittable_set_fixed_false : forall t c,
+  splittable t (cset_fixed false c) = negb (is_empty (calloc c)) && forallb (fun p => Qcleb (snd p) t) (calloc c).
+Proof. exact splittable_set_fixed_false. Qed.
+Print Assumptions C12_splittable_set_fixed_false.
+
+Theorem C12_hist_uniform_all_at_max : forall eps aeps q s k, 0 <= aeps -> hvalid aeps s ->
+  exists new, snd (hstep eps aeps q (HApply k OpUniform) s) = ONew (Some new) /\
+    Forall (fun p => fixed (crect p) = false -> cdepth p = max_depth (hget s k)) new.
+Proof. exact hist_uniform_all_at_max. Qed.
+Print Assumptions C12_hist_uniform_all_at_max.
+
+Theorem C12_hist_griddify_aligned : forall eps aeps q s k, 0 <= aeps -> hvalid aeps s ->
+  let cells := hget s k in
+  let xc := fst (gather_boundaries eps (map crect cells)) in
+  let yc := snd (gather_boundaries eps (map crect cells)) in
+  exists new, snd (hstep eps aeps q (HApply k OpGriddify) s) = ONew (Some new) /\
+    Forall (fun f => fixed (crect f) = false ->
+      (forall x, In x (interior xc) -> xmin (crect f) < x -> x < xmax (crect f) -> refused_x q x cells f) /\
+      (forall y, In y (interior yc) -> ymin (crect f) < y -> y < ymax (crect f) -> refused_y q y cells f)) new.
+Proof. exact hist_griddify_aligned. Qed.
+Print Assumptions C12_hist_griddify_aligned.
